@@ -6,10 +6,6 @@ import BLDFM.Grid
 
 namespace BLDFM
 
-inductive ErrKind where
-  | valueError | indexError | other
-deriving Repr, DecidableEq
-
 inductive Precision where
   | single | double | bad
 deriving Repr, DecidableEq
